@@ -95,12 +95,20 @@ class MTSPEnv(RL4COEnvBase):
         # If done is True, then we make the depot available again, so that it will be selected as the next node with prob 1
         available[..., 0] = torch.logical_or(done, available[..., 0])
 
-        # Update the current length
-        current_length = td["current_length"] + get_distance(cur_loc, prev_loc)
+        # An instance that was already finished is only padded with depot steps (while
+        # other instances of the batch are still running): nothing is travelled any more
+        was_done = torch.count_nonzero(td["action_mask"][..., 1:], dim=-1) == 0
 
-        # If done, we add the distance from the current_node to the depot as well
+        # Update the current length
+        current_length = td["current_length"] + get_distance(cur_loc, prev_loc) * (
+            ~was_done
+        )
+
+        # At the step that finishes the instance, we add the distance from the current_node to the depot as well
         current_length = torch.where(
-            done, current_length + get_distance(cur_loc, depot_loc), current_length
+            done & ~was_done,
+            current_length + get_distance(cur_loc, depot_loc),
+            current_length,
         )
 
         # We update the max_subtour_length and reset the current_length
